@@ -23,6 +23,10 @@ pub enum Mutation {
     /// other size): filters may never change an answer. With `extend` new blobs are then written and closed under the new
     /// configuration (old and new filter formats meet in one filter group) and the directory is reopened lazily.
     OtherBloom { extend: bool },
+    /// open the directory with ANOTHER blob file name prefix than the one its files carry (an unrelated one, or one that
+    /// merely starts with the old one): the pinned release loads every *.blob file of the work dir, the prefix only names new
+    /// blobs - every recorded answer must hold
+    OtherPrefix { longer: bool },
 }
 
 #[derive(Clone, Debug, Serialize, Deserialize)]
@@ -108,6 +112,7 @@ pub fn run_compat(c: &CompatCase, dir: &Path, verif_dir: &Path, _findings: &Find
                 _ => Bloom::Odd,
             };
         }
+        Mutation::OtherPrefix { longer } => cfg.prefix = Some(if *longer { format!("{}2", sut::PREFIX) } else { "renamed".to_string() }),
         Mutation::BlobVersion(b) => {
             let p = sut::blob_path(dir, *b);
             let mut bytes = std::fs::read(&p).map_err(|e| Failure { clause: "harness/read".into(), detail: e.to_string(), step: 0, op: String::new() })?;
@@ -339,6 +344,9 @@ pub fn enumerate(verif_dir: &Path) -> Vec<CompatCase> {
                     out.push(CompatCase { dir: d.clone(), removed, lazy: false, mutation: Mutation::KeyLen(other), rt_workers: 2 });
                 }
             }
+        }
+        for (lazy, longer) in [(false, false), (true, false), (false, true), (true, true)] {
+            out.push(CompatCase { dir: d.clone(), removed: if lazy { with_index.clone() } else { vec![] }, lazy, mutation: Mutation::OtherPrefix { longer }, rt_workers: 2 });
         }
         for (lazy, extend) in [(false, false), (true, false), (false, true), (true, true)] {
             out.push(CompatCase { dir: d.clone(), removed: vec![], lazy, mutation: Mutation::OtherBloom { extend }, rt_workers: 2 });
